@@ -90,6 +90,51 @@ pub fn run(ctx: &mut Ctx) {
         ctx.case("ble_ident_device", desc, bytes(&e.ble_device), Some(("c08.ble_ident", vec![bytes(&edk_inner)])), Some(("c08.spec_ble", vec![bytes(&edk_inner)])), true);
         ctx.rng = rng;
     }
+    // (a') a third-party reader: its EReaderKey COSE_Key is NOT in the encoding this library's own encoder writes
+    // (member order, non-minimal heads, indefinite-length map).  The transcript is over the bytes as exchanged.
+    let n = ctx.budget(6, 200);
+    for i in 0..n {
+        let mut rng = ctx.rng.clone();
+        let pki = Pki::generate(&mut rng);
+        let (m, _k) = issue(&mut rng, &pki, MDL, [(NS.to_string(), [("family_name".to_string(), Value::Text("Doe".into()))].into_iter().collect())].into_iter().collect(), DigestAlgorithm::SHA256, false);
+        let Ok(init) = isomdl::presentation::device::SessionManagerInit::initialise(documents_of(vec![m]), None, None) else { ctx.rng = rng; continue };
+        let Ok((engaged, qr)) = init.qr_engagement() else { ctx.rng = rng; continue };
+        let de_bytes = base64::decode_config(qr.strip_prefix("mdoc:").unwrap(), base64::Config::new(base64::CharacterSet::UrlSafe, false)).unwrap();
+        let eng = state_value(&isomdl::presentation::Stringify::stringify(&engaged).unwrap());
+        let dscalar = as_u8_array(map_get(&eng, "e_device_key").unwrap());
+        let dsk = p256::SecretKey::from_slice(&dscalar).unwrap();
+        let rsk = p256::SecretKey::random(&mut rng);
+        let ep = rsk.public_key().to_encoded_point(false);
+        let (x, y) = (ep.x().unwrap().to_vec(), ep.y().unwrap().to_vec());
+        let form = i % 4;
+        let erk_bytes: Vec<u8> = match form {
+            0 => [vec![0xa4, 0x20, 0x01, 0x21, 0x58, 0x20], x.clone(), vec![0x22, 0x58, 0x20], y.clone(), vec![0x01, 0x02]].concat(),
+            1 => [vec![0xa4, 0x01, 0x18, 0x02, 0x20, 0x18, 0x01, 0x21, 0x59, 0x00, 0x20], x.clone(), vec![0x22, 0x58, 0x20], y.clone()].concat(),
+            2 => [vec![0xbf, 0x01, 0x02, 0x20, 0x01, 0x21, 0x58, 0x20], x.clone(), vec![0x22, 0x58, 0x20], y.clone(), vec![0xff]].concat(),
+            _ => [vec![0xa4, 0x22, 0x58, 0x20], y.clone(), vec![0x21, 0x58, 0x20], x.clone(), vec![0x20, 0x01, 0x01, 0x02]].concat(),
+        };
+        let zab = p256::ecdh::diffie_hellman(dsk.to_nonzero_scalar(), rsk.public_key().as_affine()).raw_secret_bytes().to_vec();
+        let args = vec![bytes(&zab), bytes(&de_bytes), bytes(&erk_bytes), Value::Null];
+        let keys = ctx.runner.query("c08.session_keys", args.clone());
+        let Some(sk_reader) = keys.as_array().and_then(|a| a.first()).and_then(|k| k.as_bytes().cloned()) else { ctx.rng = rng; continue };
+        let items = Value::Map(vec![(text("docType"), text(MDL)), (text("nameSpaces"), Value::Map(vec![(text(NS), Value::Map(vec![(text("family_name"), Value::Bool(false))]))]))]);
+        let req = Value::Map(vec![(text("version"), text("1.0")), (text("docRequests"), arr(vec![Value::Map(vec![(text("itemsRequest"), Value::Tag(24, Box::new(bytes(&crate::runner::to_bytes(&items)))))])]))]);
+        let ct = aes_encrypt(&sk_reader, &iso_iv(false, 1), &crate::runner::to_bytes(&req));
+        let est = crate::runner::to_bytes(&Value::Map(vec![(text("eReaderKey"), Value::Tag(24, Box::new(bytes(&erk_bytes)))), (text("data"), bytes(&ct))]));
+        let desc = json!({"foreign_reader_key_form": form});
+        let se = match isomdl::cbor::from_slice::<isomdl::definitions::SessionEstablishment>(&est) {
+            Ok(se) => se,
+            Err(_) => { ctx.count("foreign_reader:establishment-not-decoded"); ctx.case("foreign_reader:not-decoded", desc, Value::Null, None, None, false); ctx.rng = rng; continue }
+        };
+        let obs = match catch(|| engaged.process_session_establishment(se, Default::default())) {
+            Ok(Ok((dev, _))) => { let (dk, _) = dev_view(&dev); arr(vec![bytes(&dk.sk_reader), bytes(&dk.sk_device)]) }
+            Ok(Err(_)) => text("refused"),
+            Err(p) => arr(vec![text("panic"), text(&p)]),
+        };
+        ctx.count(&format!("foreign_reader:form{form}:{}", if obs.is_array() { "keys" } else { "refused" }));
+        ctx.case("session_keys_device_foreign_reader", desc, obs, Some(("c08.session_keys", args.clone())), Some(("c08.spec_keys", args)), true);
+        ctx.rng = rng;
+    }
     // (b) the public derive_session_key with hand-made transcripts: other handovers, non-canonical engagement bytes
     let n = ctx.budget(60, 3000);
     for i in 0..n {
